@@ -267,6 +267,8 @@ def to_lcm_params(spec, leaf="float"):
 def rename(spec, mapping):
     """Consistently rename variables / functions / params mentioned in ``mapping``
     (old -> new) everywhere: dict keys, signatures, bodies, next_ prefixes."""
+    # outputs of transition functions may be arguments of other functions (next_<state>)
+    mapping = {**mapping, **{f"next_{k}": f"next_{v}" for k, v in mapping.items()}}
     pat = re.compile(r"\b(" + "|".join(re.escape(k) for k in sorted(mapping, key=len, reverse=True)) + r")\b")
 
     def sub(s):
